@@ -17,7 +17,8 @@ objects carry, per column chunk c, what the code assigned to `file_path`.  OFF(k
   many.fast.piece_holds_whole_footer / tail_holds_length_field / piece_for_every_file   every byte string handed to _get_fmd
         ends with F ++ le32(|F|) ++ 'PAR1' completely (the re-fetch of too-short tails is sufficient)
   loop invariants `...invariant_on_entry / _preserved`: len == OFF(K) + R and every element placed so far is as above.
-  get_fmd.parses_exactly_footer    on the byte-file model: content == body ++ F ++ le32(|F|) ++ 'PAR1' => from_buffer gets exactly F
+  get_fmd[|F| < 2**32].parses_exactly_footer    on the byte-file model, for EVERY footer length the 4-byte field can hold:
+        content == body ++ F ++ le32(|F|) ++ 'PAR1' => from_buffer gets exactly F
 """
 import ast
 
@@ -32,8 +33,6 @@ from .c04_sorted import (H, LSeq, Univ, register, ix, discharge_inst, h_comp, co
 from .filemodel import FileH, Bts, concat, le32, le_value, eq_goal, h_struct_unpack, install_byte_constants, FILE_ASSUMED
 from .util import Results, solve
 
-FID_FAST_CHUNKS = "C14-P-fastpath-file-path-on-first-chunk-only"
-FID_SIGNED = "C14-P-get_fmd-signed-footer-length"
 
 ASSUMED = [
     "files are abstract: file k has NRG(k) >= 0 row groups, one relative path (analyse_paths: basepath is a prefix of every path, "
@@ -468,11 +467,9 @@ def elem_conj(p, e, j, K, R, fast):
     """invariant / postcondition for the element e at position j of the accumulated list"""
     f, r, pf = e.h.resolve(p)
     cs = [0 <= f, 0 <= r, r < NRG(f), j == OFF(f) + r, z3.Or(f < K, z3.And(f == K, r < R))]
-    if fast:
-        cs.append(rec_eq(pf(z3.IntVal(0)), prec(1, f)))
-    else:
-        cs.append(rec_eq(pf(z3.IntVal(0)), expected_legacy(f)))
-        cs.append(z3.Implies(z3.And(0 <= CQ, CQ < NCOLS), rec_eq(pf(CQ), expected_legacy(f))))
+    exp = prec(1, f) if fast else expected_legacy(f)       # footer-gathering path: the files are single files, plain relative path
+    cs.append(rec_eq(pf(z3.IntVal(0)), exp))
+    cs.append(z3.Implies(z3.And(0 <= CQ, CQ < NCOLS), rec_eq(pf(CQ), exp)))
     return z3.And(*cs)
 
 
@@ -1196,11 +1193,7 @@ def _record(ctx, fq, res, known=None):
 
 
 def known_for(name):
-    if name == "many[fast].every_chunk_gets_relative_path":
-        return FID_FAST_CHUNKS
-    if name.startswith("get_fmd[2**31 <= |F| < 2**32]."):
-        return FID_SIGNED
-    return None
+    return None          # no open finding (the two found with this contract were repaired: 64ae902, de16924)
 
 
 def check(ctx, timeout):
@@ -1220,7 +1213,7 @@ def check(ctx, timeout):
     except Unsupported as ex:
         ctx.obligation("metadata_from_many.out_of_reach", "util.metadata_from_many", UNKNOWN, "engine", 0.0, detail=str(ex), sample=True)
     try:
-        for lo, hi, tag in ((0, 2 ** 31, "|F| < 2**31"), (2 ** 31, 2 ** 32, "2**31 <= |F| < 2**32")):
+        for lo, hi, tag in ((0, 2 ** 32, "|F| < 2**32"),):
             res, n = run_get_fmd(funcs, timeout, lo, hi, tag)
             ctx.vacuity["covers"] += n
             if n == 0 and lo == 0:
